@@ -99,7 +99,8 @@ def family_C17():
     base = {}
     bodies = ['[1, 2, x]', '[1, 2.5, 3]', '(-5) + a', '(-(2.5)) * 2', '[1, 2i]', 'a + (-3i)', '"s" $$ "t"' if False else '[a, [1, 2], []]', '{1: 2, a: 3}' if False else '[-1, -2.5]',
               'switch (a) case 0 -> 10 case 1 -> 11 case _ -> a * 2', 'switch ([a, y]) case [0, q] -> q case [p, q] -> p + q',
-              'switch (a) case y, 0 -> y case _ -> y + 100', 'switch (a) case q -> q + y', 'if (a > 0) "pos" else "neg"', 'null', '[null, a]', '1.5 * a', '3/4 + a' if False else '(3/4)']
+              'switch (a) case y, 0 -> y case _ -> y + 100', 'switch (a) case q -> q + y', 'if (a > 0) "pos" else "neg"', 'null', '[null, a]', '1.5 * a', '3/4 + a' if False else '(3/4)',
+              '-(5, a)', '-(a, 5)', '-(y, a)', '+(2, a)', '*(a, -3)', '-(5)']          # call-form arithmetic next to the negative-literal fold
     P = []
     bl = dict(base, builtins=('+', '-', '*', '/', '<', '>', '<=', '>=', '==', '!=', 'print', 'append'))
     for i, b in enumerate(bodies):
